@@ -92,11 +92,12 @@ func cmdCheck(args []string) int {
 		fmt.Fprintln(os.Stderr, "discover:", err)
 		return 2
 	}
-	var specs []sym.HarnessSpec
+	var specs, propSpecs []sym.HarnessSpec
 	for _, s := range all {
 		if s.Prop != *prop {
 			continue
 		}
+		propSpecs = append(propSpecs, s) // every file of the property goes into the overlay
 		if *only != "" && s.Name != *only {
 			continue
 		}
@@ -112,7 +113,7 @@ func cmdCheck(args []string) int {
 	outDir := filepath.Join(verifHome, "out", *prop)
 	os.RemoveAll(outDir)
 	os.MkdirAll(outDir, 0o755)
-	ov, err := sym.BuildOverlay(repo, verifHome, specs)
+	ov, err := sym.BuildOverlay(repo, verifHome, propSpecs)
 	if err != nil {
 		fmt.Fprintln(os.Stderr, "overlay:", err)
 		return 2
